@@ -1379,7 +1379,7 @@ func malformedStream(cfg *Config) *hx.Stats {
 	}
 
 	caseNo := 0
-	one := func(id atree.SlabID, data []byte, how string) {
+	one := func(id atree.SlabID, data []byte, how string) string {
 		caseNo++
 		e.step = caseNo
 		o := e.emitDEC(id, data)
@@ -1396,6 +1396,7 @@ func malformedStream(cfg *Config) *hx.Stats {
 		if o.class == "ok" {
 			e.reencodeAccepted(id, data, o)
 		}
+		return o.class
 	}
 
 	// 3. truncation at every length (all registers up to 400 bytes, two per kind beyond that)
@@ -1448,6 +1449,37 @@ func malformedStream(cfg *Config) *hx.Stats {
 		one(id, m, how)
 		if len(st.Violations) >= 50 {
 			break
+		}
+	}
+
+	// 5b. registers built from the slab grammar with per-field valid / boundary / invalid choices
+	// (grammar.go); most of them are accepted, a rejected one fails exactly one check
+	nGram := int(24000 * cfg.Scale)
+	gramOK, gramSeen := 0, map[string]bool{}
+	for i := 0; i < nGram && len(st.Violations) < 50; i++ {
+		data, devs := genRegister(cfg.Seed*1000003+int64(i), i%3 == 2)
+		if gramSeen[string(data)] {
+			continue
+		}
+		gramSeen[string(data)] = true
+		id := hx.MkIDn(0x0102030405060708, uint64(1+i%200))
+		class := one(id, data, "grammar")
+		st.Hit("gram:" + class)
+		if class == "ok" {
+			gramOK++
+			st.Hit("gram:ok:" + regKind(data))
+		}
+		if len(devs) == 0 {
+			st.Hit("gram:dev:none:" + class)
+		}
+		for _, d := range devs {
+			st.Hit("gram:dev:" + d + ":" + class)
+		}
+	}
+	if n := len(gramSeen); n > 0 {
+		st.Samples = append(st.Samples, fmt.Sprintf("grammar-aware registers: %d distinct, %d accepted (%d%%)", n, gramOK, 100*gramOK/n))
+		if 100*gramOK < 30*n && st.HarnessErr == "" && len(st.Violations) == 0 {
+			st.HarnessErr = fmt.Sprintf("grammar-aware generator: only %d of %d registers accepted (< 30%%)", gramOK, n)
 		}
 	}
 
